@@ -36,7 +36,7 @@ ASSUMPTIONS = [
     "the PID must be offered from the next cycle on (the latency the repo's own test pins)",
 ]
 BOUNDS = "BMC from reset, all inputs free per cycle. Framing assertions: K=16 quick / K=22 thorough (+K=34 with " \
-         "tx.ready=1). CRC assertions: K=7 quick / K=10 thorough (payloads up to 3/6 bytes; +K=13 with tx.ready=1, best effort)"
+         "tx.ready=1). CRC assertions: K=7 quick / K=9 thorough (payloads up to 3/5 bytes; K=10 free and K=13 with tx.ready=1 best effort)"
 OUTSIDE = "payloads longer than the depth allows; producers that drop valid inside a packet; the multiplexer between " \
           "this generator and the handshake generator (C20)"
 
@@ -215,11 +215,13 @@ def queries(tier):
                              "data_pid and tx.ready free every cycle"))
         # the two CRC assertions compare two independently gated CRC accumulations; cost grows steeply with depth
         # (K=9 35-56 s, K=12 > 100 s on a loaded machine), so they get their own shallower free layer
-        Kc = 10 if thorough else 7
+        Kc = 9 if thorough else 7
         qs.append(Query(f"bmc_crc_{tag}", f, Kc, asserts=CRC_ASSERTS, covers=[], timeout=900,
                         desc=f"{tag}: CRC16 low/high byte of the accepted payload; everything free every cycle "
                              f"(packets of up to {Kc - 4} bytes, or fewer with stalls)"))
         if thorough:
+            qs.append(Query(f"bmc_crc_k10_{tag}", f, 10, asserts=CRC_ASSERTS, covers=[], timeout=900, required=False,
+                            desc=f"{tag}: CRC16 assertions, everything free, K=10 (best effort; not measured to completion)"))
             qs.append(Query(f"bmc_crc_ready1_{tag}", f, 13, asserts=CRC_ASSERTS, covers=[], layer={"tx_ready": 1},
                             timeout=900, required=False,
                             desc=f"{tag}: restricted layer tx.ready = 1 (no stalls), payloads up to 9 bytes"))
